@@ -3,7 +3,7 @@
 # demo passes without the patch, fails with it; build ok; tests of touched packages and the root package pass with it.
 set -u
 export GOFLAGS=-mod=mod GOPROXY=off GOSUMDB=off GOTOOLCHAIN=local
-D=$1; W=/tmp/mutrepo
+D=$1; W=${MUTW:-/tmp/mutrepo2}; [ -d $W ] || git -C /repo worktree add -q --detach $W HEAD
 git -C $W checkout -q --detach $(git -C /repo rev-parse HEAD) && git -C $W checkout -q -- . && git -C $W clean -fdq
 place=$(python3 -c "import json;print(json.load(open('$D/meta.json'))['demo']['place_at'])")
 run=$(python3 -c "import json;print(json.load(open('$D/meta.json'))['demo']['run'])")
